@@ -182,6 +182,7 @@ End WF.
 Definition L_main : str := [95;95;109;97;105;110;95;95].              (* "__main__" *)
 Definition L_builtins : str := [98;117;105;108;116;105;110;115].      (* "builtins" *)
 
+Definition L_unknown : str := [60;117;110;107;110;111;119;110;62].      (* "<unknown>" *)
 Definition L_str_failed : str :=      (* "<exception str() failed>" *)
   [60;101;120;99;101;112;116;105;111;110;32;115;116;114;40;41;32;102;97;105;108;101;100;62].
 Definition L_hint : str :=            (* ". Did you mean: " *)
@@ -199,8 +200,11 @@ Section Live.
   (* TracebackException.format_exception_only: qualname, prefixed by the module
      unless that is __main__ or builtins *)
   Definition std_type (e : live_exc) : str :=
-    if str_eqb (ex_module e) L_main || str_eqb (ex_module e) L_builtins then ex_qualname e
-    else ex_module e ++ [46] ++ ex_qualname e.
+    match ex_module e with
+    | Some m => if str_eqb m L_main || str_eqb m L_builtins then ex_qualname e
+                else m ++ [46] ++ ex_qualname e
+    | None => L_unknown ++ [46] ++ ex_qualname e        (* __module__ is not a str *)
+    end.
   (* _safe_string(value, 'exception') *)
   Definition std_base_msg (e : live_exc) : str :=
     match ex_str e with Some s => s | None => L_str_failed end.
